@@ -78,6 +78,8 @@ def run(tier):
     for b in builds:
         ctx = Ctx(b)
         check_build(ck, ctx, b, tier)
+    if tier == 'thorough':
+        witnesses(ck)
     ck.floor('unsafe_ops_met', 20)
     ck.floor('conversions_interpreted', 60 if tier == 'quick' else 150)
     ck.assumptions += ['A-geom: every dimension, stride, offset and buffer length is below 2^28 (wrap-around of usize arithmetic beyond that is outside the stated quantifier)',
@@ -266,3 +268,28 @@ def api_surface(ck, ctx, b):
     ck.count('public_fns_scanned', n)
     ck.ob(f"C07/O-inv/no-mut-leak/{b}", 'PROVED' if not bad else 'REFUTED',
           f"none of the {n} reachable functions returns &mut to a non-slice" if not bad else f"{bad[0][0]} returns a mutable reference into an image: {bad[0][1]}")
+
+def witnesses(ck):
+    """E3: compile-fail witnesses (rustdoc compile_fail with error codes, nightly) with compiling twins"""
+    import os, shutil, subprocess, tempfile, re as _re
+    src = os.path.join(os.path.dirname(os.path.dirname(os.path.abspath(__file__))), 'witness')
+    tmp = tempfile.mkdtemp(prefix='verif-witness-')
+    try:
+        shutil.copytree(src, os.path.join(tmp, 'w'), ignore=shutil.ignore_patterns('target'))
+        w = os.path.join(tmp, 'w')
+        ct = open(os.path.join(w, 'Cargo.toml')).read().replace('path = "/repo"', f'path = "{facts.REPO}"')
+        open(os.path.join(w, 'Cargo.toml'), 'w').write(ct)
+        lock = os.path.join(facts.REPO, 'Cargo.lock')
+        if os.path.exists(lock):
+            shutil.copy(lock, os.path.join(w, 'Cargo.lock'))
+        env = dict(os.environ, CARGO_TARGET_DIR=os.path.join(tmp, 'target'), CARGO_NET_OFFLINE='true')
+        p = subprocess.run(['cargo', '+nightly', 'test', '--doc', '--offline'], cwd=w, env=env, capture_output=True, text=True, timeout=1200)
+        m = _re.search(r'test result: (\w+)\. (\d+) passed; (\d+) failed', p.stdout)
+        ok = bool(m) and m.group(1) == 'ok' and int(m.group(2)) >= 11 and int(m.group(3)) == 0
+        failed = _re.findall(r'^test (.*) \.\.\. FAILED', p.stdout, _re.M)
+        ck.note('witness_doctests', m.group(0) if m else p.stdout[-300:] + p.stderr[-300:])
+        ck.ob('C07/E3-witnesses', 'PROVED' if ok else 'REFUTED',
+              'struct literals of Yuv/Rgb/LinearRgb/Xyb/Hsl, Yuv::data_mut and data_mut().push do not compile (E0451/E0599); their twins do' if ok else
+              f"a type-level guarantee no longer holds: {failed[:3] or (p.stderr[-300:])}")
+    finally:
+        shutil.rmtree(tmp, ignore_errors=True)
